@@ -15,7 +15,7 @@ THEOREMS = [
     "Astm.C13.constraints_eq_contract", "Astm.C13.text_stored_iff_length_ok", "Astm.C13.text_stored_unchanged",
     "Astm.C13.not_used_stores_nothing", "Astm.C13.set_stored_iff_member", "Astm.C13.constant_stored_iff_equal",
     "Astm.C13.integer_stored_iff_int", "Astm.C13.check_digits_exact", "Astm.C13.datetime_stored_exact",
-    "Astm.C13.date_stored_exact", "Astm.C13.too_many_values_error", "Astm.C13.example_calendar",
+    "Astm.C13.date_stored_exact", "Astm.C13.stored_value_reads_back", "Astm.C13.integer_reads_back", "Astm.C13.too_many_values_error", "Astm.C13.example_calendar",
 ]
 RULE = ("every scalar field instance and every sub-field of every schema (contract tables) with values inside, on the "
         "boundary of and outside its constraint (length n / n+1, codes and near-miss codes, constant and other text, "
@@ -333,6 +333,81 @@ def run(ctx):
         if ml is not None and codecio.canon_model(ml) != got:
             it.disagree({"value": codecio.cps(v)}, got, ml)
     streams.append(it)
+
+    # every way to put occurrences into a repeatable field: append, extend, +=, insert, item assignment.  Each item
+    # is checked like a wire value; when one of them violates its constraint an error is raised and the record is
+    # exactly what it was before the call (nothing stored, not even the valid items in front of it)
+    px = Stream("list-operations")
+    import copy
+    for module, letter, spec in schemaio.record_specs():
+        cls = schemaio.real_class(module, letter)
+        if cls is None:
+            continue
+        for f in spec["fields"]:
+            if f["shape"] != "repeated":
+                continue
+            k = len(f["sub"])
+            for _ in range(40 if ctx.thorough else 8):
+                good = lambda: schemaio.gen_component(r, f["sub"], force=True)[0]   # noqa
+                bads = [["x"] * (k + 1)]                                        # too many components
+                for j, sp in enumerate(f["sub"]):
+                    bad_v = None
+                    if sp["kind"] in ("text", "plain") and sp["length"] is not None:
+                        bad_v = "a" * (sp["length"] + 1)
+                    elif sp["kind"] == "integer":
+                        bad_v = "x1"
+                    elif sp["kind"] in ("date", "datetime", "time"):
+                        bad_v = "2023"
+                    elif sp["kind"] == "set":
+                        bad_v = "~none~"
+                    elif sp["kind"] == "constant":
+                        bad_v = (sp["constant"] or "s:")[2:] + "~"
+                    if bad_v is not None:
+                        bads.append([None] * j + [bad_v])
+                bad = r.choice(bads)
+                try:
+                    obj = cls()
+                    setattr(obj, f["name"], [good(), good()])
+                    before = copy.deepcopy(obj.to_dict())
+                except Exception:
+                    break
+                op = r.choice(["append", "extend-valid-then-invalid", "iadd-valid-then-invalid", "insert", "setitem",
+                               "extend-invalid-first"])   # (slice assignment reaches __setitem__ with a list: O13)
+                lst = getattr(obj, f["name"])
+                raised = None
+                try:
+                    if op == "append":
+                        lst.append(bad)
+                    elif op == "extend-valid-then-invalid":
+                        lst.extend([good(), good(), bad])
+                    elif op == "iadd-valid-then-invalid":
+                        lst += [good(), bad, good()]
+                    elif op == "insert":
+                        lst.insert(r.randrange(0, 3), bad)
+                    elif op == "setitem":
+                        lst[r.randrange(0, 2)] = bad
+                    else:
+                        lst.extend([bad, good()])
+                except Exception as exc:  # noqa
+                    raised = type(exc).__name__
+                case = {"module": module, "letter": letter, "field": f["name"], "operation": op, "invalid_item": bad}
+                px.case(case)
+                px.count(op)
+                try:
+                    after = obj.to_dict()
+                except Exception as exc:  # noqa
+                    after = "ERR " + type(exc).__name__
+                if raised is None:
+                    px.fail(dict(case, after=repr(after)[:200]), "%s with an item violating its constraint raises no error" % op,
+                            "list-operations/accepted")
+                elif after != before:
+                    px.fail(dict(case, before=repr(before[f["name"]])[:200], after=repr(after if isinstance(after, str) else after[f["name"]])[:200]),
+                            "%s raised %s but the record was changed (something was stored)" % (op, raised),
+                            "list-operations/partial")
+    streams.append(px)
+    # what is in force for a class must not depend on which classes the process used before
+    from harness.props import C20
+    streams.append(C20.order_stream(ctx))
 
     # too many fields / components
     tm = Stream("too-many-values")
